@@ -422,6 +422,7 @@ def check(run):
     for c in cases:
         run.count('kind_' + c['kind'])
     res = common.standard_flow(run, spec, cases)
+    check_restored_timer(run)
     for c, o, ch in res:
         for s in o.get('steps', []):
             run.count('step_' + s[0])
@@ -437,8 +438,91 @@ def check(run):
                               clause='startup_failed_without_cause', concrete=True)
 
 
+def check_restored_timer(run, only=None):
+    """'entering a timed state always cancels the previous timer ... at most one timer pending ... no timed
+    event fires after the simulation has stopped' - for a timer that was set by the restoration of a
+    saved state (a persistent Timer / InputExp restarted in its timed state with time remaining): leaving
+    the state cancels it, a re-entered state runs for its full duration, a stop cancels it."""
+    for kind in ('timer_reentered', 'inputexp_reentered', 'timer_stopped'):
+        if only is not None and kind != only:
+            continue
+        obs = dict(restored=None, mid=None, late=None, after_stop=None, pending=None, harness=None)
+        store = {}
+        seen = []
+
+        def one_run(phase, kind=kind, obs=obs, store=store, seen=seen):
+            async def main(loop):
+                edzed.reset_circuit()
+                circuit = edzed.get_circuit()
+                if kind.startswith('timer'):
+                    blk = edzed.Timer('blk', t_on=1.0, persistent=True)
+                else:
+                    blk = edzed.InputExp('blk', duration=1.0, expired='EXP', persistent=True)
+                orig = blk.event
+
+                def wrapped(etype, /, **data):
+                    seen.append([phase, round(loop.time(), 3), str(etype)])
+                    return orig(etype, **data)
+                blk.event = wrapped
+                circuit.set_persistent_data(store)
+                task = asyncio.create_task(circuit.run_forever())
+                await circuit.wait_init()
+                if phase == 'first':
+                    if kind.startswith('timer'):
+                        blk.event('start')
+                    else:
+                        blk.event('put', value='V1')
+                    await asyncio.sleep(0.2)
+                else:
+                    obs['restored'] = blk.state
+                    if kind != 'timer_stopped':
+                        await asyncio.sleep(0.1)
+                        if kind.startswith('timer'):
+                            blk.event('stop')
+                            await asyncio.sleep(0.1)
+                            blk.event('start')
+                        else:
+                            await asyncio.sleep(0.1)
+                            blk.event('put', value='V2')       # re-enters 'valid': a new full second
+                        await asyncio.sleep(0.95)
+                        obs['mid'] = blk.state                  # 1.15 s: the new timer has 50 ms to go
+                        await asyncio.sleep(0.2)
+                        obs['late'] = blk.state
+                await circuit.shutdown()
+                await asyncio.wait([task], timeout=2.0)
+                if phase == 'second':
+                    n0 = len(seen)
+                    await asyncio.sleep(5)
+                    obs['after_stop'] = seen[n0:]
+                    obs['pending'] = [repr(h)[:80] for h in loop.pending_timers()]
+            vloop.run_virtual(main, wall_limit_s=10.0)
+        try:
+            one_run('first')
+            one_run('second')
+        except BaseException as err:                          # noqa
+            obs['harness'] = repr(err)[:200]
+        finally:
+            edzed.reset_circuit()
+        run.add_case(dict(restored_timer=kind), True)
+        run.count('restored_timer')
+        timed, idle = ('on', 'off') if kind.startswith('timer') else ('valid', 'expired')
+        ok = (obs['harness'] is None and obs['restored'] == timed and obs['after_stop'] == [] and obs['pending'] == []
+              and (kind == 'timer_stopped' or (obs['mid'] == timed and obs['late'] == idle)))
+        run.add_obligation(ok)
+        if not ok:
+            run.violation('monitor', dict(case=dict(restored_timer=kind), observed=dict(obs, events=seen[-8:])),
+                          f"persistent {kind.split('_')[0]} restarted in its timed state (1 s, 0.2 s used): restored state "
+                          f"{obs['restored']!r}; the state is left and re-entered 0.2 s after the restart: state at "
+                          f"1.15 s {obs['mid']!r} (expected {timed!r}: the new timer has 50 ms to go), at 1.35 s "
+                          f"{obs['late']!r} (expected {idle!r}); events after the stop {obs['after_stop']}, timers "
+                          f"still pending {obs['pending']}; harness: {obs['harness']}",
+                          clause='restored_timer:' + kind, concrete=True)
+
+
 def replay(run, path):
     payload, case = common.load_replay_case(path)
+    if isinstance(case, dict) and 'restored_timer' in case:
+        return common.directed_replay(run, path, lambda: check_restored_timer(run, case['restored_timer']))
     if payload.get('clause') == 'startup_failed_without_cause':
         def again():
             o = C04().run_impl(case)
